@@ -13,6 +13,8 @@
 import GfsModel.FrameSet
 import GfsModel.ListSeqs
 import GfsProofs.ValidLemmas
+import GfsGen.Facts
+import GfsModel.ExpectedSrc
 
 namespace Gfs.Props.C15
 open Gfs Gfs.Spec Gfs.Proofs
@@ -41,5 +43,10 @@ theorem C15_lookbehind_in_bounds (base : Bytes) (hne : base ≠ []) :
   have : 0 < base.length := List.length_pos_iff.mpr hne
   simp only
   split <;> omega
+
+/-- the declarations of /repo this property's model and specification were written from are,
+    on this run, the ones the model was last aligned with (digest of their comment- and
+    layout-insensitive fingerprints, re-extracted by tools/gofacts) -/
+theorem C15_source : Gfs.Gen.sourceDigestC15 = Gfs.expectedSourceDigestC15 := by decide
 
 end Gfs.Props.C15
